@@ -285,6 +285,15 @@ def check_decode(bits, kind, clsname, prefix=''):
             require(is_raised(got, ValueError), f'.{kind} must raise InterpretError unless the bitstring is exactly one codeword',
                     bits=bits, got=got, model=r)
             require(not is_raised(got, bs.ReadError), f'.{kind} must raise InterpretError, not ReadError', bits=bits, got=got)
+        # Dtype.parse interprets the whole bitstring too: one codeword exactly
+        for arg in (o, ('0b' + bits) if bits else None):
+            if arg is None:
+                continue
+            gp = attempt(bs.Dtype(kind).parse, arg)
+            if r != TRUNC and r[1] == len(bits):
+                require(not is_raised(gp) and gp == r[0], f"Dtype('{kind}').parse of a single codeword differs", bits=bits, got=gp, expected=r[0])
+            else:
+                require(is_raised(gp, ValueError), f"Dtype('{kind}').parse must not accept anything but exactly one codeword", bits=bits, got=gp, model=r)
     s = cls_of('ConstBitStream' if clsname in ('Bits', 'ConstBitStream') else 'BitStream')(bin=whole, pos=len(prefix))
     for how in ('peek', 'read', 'readlist'):
         s.pos = len(prefix)
@@ -362,7 +371,7 @@ def seq_case(draw, tier):
             v = -v
         items.append([kind, v])
     return {'items': items, 'prefix': draw(st.text('01', max_size=10)), 'cut': draw(st.integers(0, 6)) if draw(st.integers(0, 2)) == 0 else 0,
-            'cls': draw(st.sampled_from(['ConstBitStream', 'BitStream'])), 'mode': draw(st.sampled_from(['read', 'readlist', 'unpack', 'readlist_str', 'mixed'])),
+            'cls': draw(st.sampled_from(['ConstBitStream', 'BitStream'])), 'mode': draw(st.sampled_from(['read', 'readlist', 'unpack', 'readlist_str', 'mixed', 'dtype_objects', 'read_dtype_objects'])),
             'opt_ba': draw(st.sampled_from([False, False, True]))}
 
 
@@ -407,8 +416,33 @@ def run_seq(case):
             require(got == r[0], 'read in a sequence differs', i=i, got=got, expected=r[0])
             require(s.pos == r[1], 'pos did not advance by exactly one codeword', i=i, pos=s.pos, expected=r[1])
             pos = r[1]
+    elif mode == 'read_dtype_objects':
+        # read(Dtype object), alternating a scaled and the plain dtype of the same code: the scale multiplies the value, never the position
+        pos = p0
+        for i, (k, _) in enumerate(items):
+            r = exp[i] if i < len(exp) else TRUNC
+            sc = [None, 4, None, 0.5][i % 4]
+            d = bs.Dtype(k, scale=sc) if sc is not None else bs.Dtype(k)
+            got = attempt(s.read, d)
+            if r == TRUNC:
+                require(is_raised(got, bs.ReadError), 'read(Dtype) of a truncated code must raise ReadError', got=got, i=i)
+                require(s.pos == pos, 'failed read moved pos', pos=s.pos, expected=pos)
+                break
+            want = r[0] if sc is None else r[0] * sc
+            require(not is_raised(got) and got == want, 'read(Dtype object) in a sequence differs', i=i, got=got, expected=want, scale=sc)
+            require(s.pos == r[1], 'pos did not advance by exactly one codeword', i=i, pos=s.pos, expected=r[1])
+            pos = r[1]
+    elif mode == 'dtype_objects' and not any(e == TRUNC for e in exp):
+        # lists of Dtype objects: first every code scaled by 4, then the plain dtypes, then scaled by 0.5 - each call stands for itself
+        for sc in (4, None, 0.5, None):
+            ds = [bs.Dtype(k, scale=sc) if sc is not None else bs.Dtype(k) for k in kinds]
+            for how in ('unpack', 'readlist', 'peeklist'):
+                s.pos = p0
+                got = attempt(bs.Bits(bin=data[p0:]).unpack, ds) if how == 'unpack' else attempt(getattr(s, how), ds)
+                want = [e[0] if sc is None else e[0] * sc for e in exp]
+                require(not is_raised(got) and got == want, f'{how}(list of Dtype objects) differs from the sequence', got=got if is_raised(got) else got[:8], expected=want[:8], scale=sc)
     else:
-        if mode == 'readlist':
+        if mode == 'readlist' or mode == 'dtype_objects':
             fmt = kinds
             call = lambda: s.readlist(fmt)
         elif mode == 'readlist_str':
